@@ -5,6 +5,7 @@ use crate::ckalloc::{self, EvKind};
 use crate::ctx::Ctx;
 use crate::elem;
 use crate::for_coll;
+use crate::plan::PlanBH;
 use crate::states::{build, Coll, Spec, RECIPES};
 use crate::util::{catch, payload_str, Json, Rng};
 use hashbrown::TryReserveError;
@@ -48,6 +49,58 @@ pub fn run(c: &mut Ctx) {
     });
 }
 
+/// The infallible counterparts: a request whose size is not representable must be reported (a "capacity
+/// overflow" panic), never silently accepted and never turned into undefined behaviour. Only requests
+/// that cannot reach the allocator are used (an infallible allocation failure aborts the process).
+fn infallible_overflow<C: Coll>(c: &mut Ctx, spec: &Spec, name: &str) {
+    use hashbrown::verif::{calculate_layout_for, capacity_to_buckets};
+    let esize = C::elem_size();
+    let probe: C = build(spec);
+    let len = probe.len();
+    drop(probe);
+    let mut values: Vec<usize> = vec![usize::MAX, usize::MAX - len, (usize::MAX - len).saturating_add(1), usize::MAX / 8 + 1, isize::MAX as usize];
+    // values whose bucket count fits but whose byte size does not (decided with the real arithmetic)
+    for lg in 40..63u32 {
+        let add = 1usize << lg;
+        if let Some(total) = len.checked_add(add) {
+            if let Some(b) = capacity_to_buckets(total, esize, 8) {
+                if calculate_layout_for(esize, 8, b).is_none() {
+                    values.push(add);
+                    break;
+                }
+            }
+        }
+    }
+    let bh = PlanBH::new(spec.plan, spec.salt);
+    for add in values {
+        // requests that would be representable are skipped (they would reach the allocator)
+        let representable = len.checked_add(add).and_then(|t| capacity_to_buckets(t, esize, 8)).and_then(|b| calculate_layout_for(esize, 8, b)).is_some();
+        if representable {
+            continue;
+        }
+        c.evaluations += 1;
+        c.sig_parts(&[crate::ctx::prop_salt(name), 900, (add == usize::MAX) as u64, (len == 0) as u64]);
+        let mut x: C = build(spec);
+        let before = x.contents();
+        let cap0 = x.capacity();
+        let what = format!("{} [{}] len {} reserve({})", name, spec.describe(), len, add);
+        let r = crate::util::catch_expected(|| x.reserve(add));
+        match r {
+            Ok(()) => crate::viol!("{}: returned normally (capacity() = {}) although the request is not representable", what, x.capacity()),
+            Err(msg) => crate::check!(msg.to_lowercase().contains("capacity overflow"), "{}: panicked with an unexpected message: {}", what, msg),
+        }
+        crate::check!(x.contents() == before && x.capacity() == cap0, "{}: the failed reserve changed the collection", what);
+        x.validate(&what);
+        drop(x);
+        let r = crate::util::catch_expected(|| C::with_cap(bh, add));
+        match r {
+            Ok(w) => crate::viol!("{}: with_capacity({}) returned a collection of capacity {}", name, add, w.capacity()),
+            Err(msg) => crate::check!(msg.to_lowercase().contains("capacity overflow"), "{}: with_capacity({}) panicked with an unexpected message: {}", name, add, msg),
+        }
+        c.bump("infallible_overflow_panics_checked");
+    }
+}
+
 pub fn scenario<C: Coll>(c: &mut Ctx, idx: u64, rng: &mut Rng, name: &str) {
     let recipe = RECIPES[((crate::util::mix(idx) / C12_COLLS.len() as u64) % RECIPES.len() as u64) as usize];
     let spec = Spec::random(rng, recipe);
@@ -55,12 +108,15 @@ pub fn scenario<C: Coll>(c: &mut Ctx, idx: u64, rng: &mut Rng, name: &str) {
     d.set("collection", Json::s(name));
     d.set("state", Json::s(spec.describe()));
     c.describe(d);
-    ckalloc::set_byte_cap(BYTE_CAP);
     let probe: C = build(&spec);
     let (len, cap) = (probe.len(), probe.capacity());
     let f = probe.validate(name);
     drop(probe);
     let esize = C::elem_size();
+    infallible_overflow::<C>(c, &spec, name);
+    if crate::util::has_violation() {
+        return;
+    }
     for additional in additional_values(len, cap, esize, rng, c.thorough()) {
         for refusal in 0..3u8 {
             // 0: the allocator obeys (up to the byte cap), 1: it refuses the next request, 2: it refuses the request after that
@@ -70,6 +126,8 @@ pub fn scenario<C: Coll>(c: &mut Ctx, idx: u64, rng: &mut Rng, name: &str) {
             let reg0 = elem::reg_counters();
             let cap0 = x.capacity();
             let ev0 = ckalloc::events_len();
+            // the byte cap and the refusal apply to the call under test only (not to building the state)
+            ckalloc::set_byte_cap(BYTE_CAP);
             ckalloc::refuse_in(match refusal {
                 1 => Some(0),
                 2 => Some(1),
@@ -77,6 +135,7 @@ pub fn scenario<C: Coll>(c: &mut Ctx, idx: u64, rng: &mut Rng, name: &str) {
             });
             let r = catch(|| x.try_reserve(additional));
             ckalloc::refuse_in(None);
+            ckalloc::set_byte_cap(ckalloc::HARD_CAP);
             let evs = ckalloc::events_since(ev0);
             let what = format!("{} [{}] len {} capacity {} try_reserve({}) refusal {}", name, spec.describe(), len, cap0, additional, refusal);
             c.evaluations += 1;
